@@ -91,6 +91,10 @@ CHECKS = {
             "Every zoneinfo and pytz zone id (read at run time) x each transition instant -1s/0/+1s in the old and the new offset, mid-points and 8 fixed times (quick: first/last three transitions of 1970-2037; thorough: all of 1900-2100) x "
             "{DTSTART, RDATE list, RDATE period, FREEBUSY explicit/by-duration period, period spanning the transition} x tzinfo from zoneinfo/pytz/dateutil x both providers; DTSTAMP/CREATED/LAST-MODIFIED/ACKNOWLEDGED via add and descriptors: emitted line, parsed wall time, zone key and provider-assigned offset.",
             "trusted: refmodel/rfc_tz.py TZif reader (self-validated against zoneinfo per zone at run time; a disagreement is a harness error), the provider library as ground truth for its own offsets", "3/C11"),
+    "C13": ("exhaustive sweep of every zone id x providers x date windows: the generated VTIMEZONE is checked on the partition induced by independently read source breakpoints and generated onsets (piecewise-constant argument makes this every instant), with a predictor that re-implements the generator's documented search on the ground-truth breakpoints",
+            "Every zoneinfo zone (thorough: also every pytz zone and 20 windows; quick: a seed-rotated third of pytz zones and one rotated short window): well-formedness, RFC 5545 onset interpretation, the converted zone and regeneration vs. the source's offset and abbreviation at each breakpoint -1s/0/+1s and interval interior. "
+            "Deviations are tolerated only if they equal the prediction of the open findings' model (onset written in the new offset's wall clock, name-only transitions invisible, short observances stepped over, 24h deltas).",
+            "trusted: refmodel/rfc_tz.py (TZif reader, onset interpreter), refmodel/tree.py reader for the generated text, the simulation predictor in checks/c13.py; dateutil-built zones are matched by a weaker signature (deviation only where the component itself deviates or within one offset-delta of an edge)", "3/C13"),
 }
 REASON_PENDING = "check under construction in this session; not claimed until it has been built, silenced on the unchanged tree and shown to detect a seeded change"
 ALL = [f"C{i:02d}" for i in range(1, 21)]
